@@ -133,11 +133,35 @@ def _chunk(seed, lo, hi, extra):
             open(fa, "w", encoding="utf-8", newline="").write(a)
             open(fb, "w", encoding="utf-8", newline="").write(b)
             rows = [(None, None)] + [(f, n) for f in ("diff", "old", "xml") for n in (0, 1, 2, 3)]
+            # ... and xml formatters whose flag is assigned after construction (a subclass that sets it in its own __init__
+            # does the same): the flag in effect is the one the formatter has when it is used
+            rows += [("xml", (n0, n1)) for n0, n1 in ((0, 2), (1, 2), (2, 0), (3, 0), (0, 3), (3, 1))]
             # the matching mode rotates over the three modes of the differ (the statement is about every way of diffing)
             dopts, cli_mode = [({}, []), ({"fast_match": True}, ["--fast-match"]), ({"best_match": True}, ["--best-match"])][idx % 3]
             desc["diff_options"] = repr(dopts)
             st.count("matching_mode_" + (cli_mode[0][2:] if cli_mode else "default"))
             for fname, norm in rows:
+                if isinstance(norm, tuple):
+                    n_built, norm = norm
+
+                    def mk(n_built=n_built, norm=norm):
+                        f_ = formatting.XMLFormatter(normalize=n_built)
+                        f_.normalize = norm
+                        return f_
+
+                    strips = bool(norm & 1)
+                    row = {"formatter": "xml", "normalize": norm, "normalize_at_construction": n_built, **desc}
+                    try:
+                        for how, res in (("texts", main.diff_texts(a, b, diff_options=dict(dopts), formatter=mk())),
+                                         ("files", main.diff_files(fa, fb, diff_options=dict(dopts), formatter=mk()))):
+                            marked = DIFF_NS in res or "diff:" in res
+                            if norm != 0 and marked:
+                                st.failures.append({"sig": f"C14/xml-output-has-markup/normalize={norm}/flag-assigned-after-construction/{how}", **row})
+                            if norm == 0 and differs_raw and not marked:
+                                st.failures.append({"sig": f"C14/xml-output-lacks-markup/normalize=0/flag-assigned-after-construction/{how}", **row})
+                    except Exception as e:  # noqa
+                        st.failures.append({"sig": f"C14/raises/{real.exc_sig(e)}/xml/flag-assigned-after-construction", **row})
+                    continue
                 mk = {None: lambda: None, "diff": lambda: formatting.DiffFormatter(normalize=norm),
                       "old": lambda: formatting.XmlDiffFormatter(normalize=norm), "xml": lambda: formatting.XMLFormatter(normalize=norm)}[fname]
                 strips = True if fname is None else bool(norm & 1)
